@@ -327,6 +327,19 @@ def record_extra(rng, g, k, D, N, C, x, y, m) -> List[List[dict]]:
     except Exception as ex:
         evs.append(dict(ev="ax", ax="accepted", loss="overlap[target forms]", D=D, N=N, C=max(C, 2), exc=True, what="target forms", err=f"{type(ex).__name__}: {ex}"[:140]))
     trace("overlap[target forms]", evs)
+    # mutual information with its DEFAULT intensity range (the joint range of both images): symmetric also when the second image is the brighter one
+    if C == 1:
+        evs = []
+        try:
+            yb = y * 3.0 + 1.0
+            for nm, fn in (("mi_loss[default range]", L.mi_loss), ("nmi_loss[default range]", L.nmi_loss)):
+                evs.append(dict(ev="ax", ax="symmetric", loss=nm, D=D, N=N, C=C, v1=cap(fn(x, yb, num_bins=16)), v2=cap(fn(yb, x, num_bins=16))))
+                evs.append(dict(ev="ax", ax="equals", loss=nm, D=D, N=N, C=C, v1=cap(fn(x, yb, num_bins=16)),
+                                v2=cap(fn(x, yb, num_bins=16, vmin=float(torch.min(x.min(), yb.min())), vmax=float(torch.max(x.max(), yb.max())))), what="default range = joint range of both images"))
+            evs.append(dict(ev="ax", ax="symmetric", loss="MI[module, default range]", D=D, N=N, C=C, v1=cap(LI.MI(num_bins=16)(x, yb)), v2=cap(LI.MI(num_bins=16)(yb, x))))
+        except Exception as ex:
+            evs.append(dict(ev="ax", ax="accepted", loss="mi_loss[default range]", D=D, N=N, C=C, exc=True, what="default range", err=f"{type(ex).__name__}: {ex}"[:120]))
+        trace("mi_loss[default range]", evs)
     # the windowed and information-theoretic loss MODULES are their functional forms with the constructor's options (every alias of an option)
     mods = [("LCC[module]", lambda: LI.LCC(kernel_size=3)(x, y), lambda: L.lcc_loss(x, y, kernel_size=3)),
             ("LCC[module,mask]", lambda: LI.LCC(kernel_size=3)(x, y, mask=ms), lambda: L.lcc_loss(x, y, mask=ms, kernel_size=3)),
